@@ -105,11 +105,8 @@ func (g *gatingStore) AddCallback(id string, fn beacon.CallbackFunc) {
 	g.register(id, fn, g.CallbackStore.AddCallback)
 }
 
-// AddStreamCallback is what SyncChain calls on a tree whose callbackStore knows stream consumers (on the other trees this
-// method is simply never called).
-func (g *gatingStore) AddStreamCallback(id string, fn beacon.CallbackFunc) {
-	g.register(id, fn, func(id string, fn beacon.CallbackFunc) { addStreamCallback(g.CallbackStore, id, fn) })
-}
+// gatingStore.AddStreamCallback — what SyncChain calls on a tree whose callbackStore knows stream consumers — is in
+// streamadd_v1.go / streamadd_v2.go (the method's result type differs between the two shapes of the store's API).
 
 func (g *gatingStore) register(id string, fn beacon.CallbackFunc, add func(string, beacon.CallbackFunc)) {
 	g.s.gate("gate-register")
